@@ -1121,10 +1121,10 @@ fn run_tcp(ep: &Endpoint, reqs: &[ReqSpec], expect_ids: &[u64], expect_events: u
         }
         true
     });
-    let deadline = Instant::now() + WATCHDOG;
+    let hard = Instant::now() + Duration::from_secs(120);
     // every response must arrive without any further request being sent: the first sentinel goes out only
     // once all expected responses are in (or after a grace period, which is then reported)
-    let grace = Instant::now() + GRACE;
+    let mut written_at: Option<Instant> = None;
     let mut sent_s1 = false;
     let mut buf: Vec<u8> = Vec::new();
     let mut seen_s1 = false;
@@ -1143,8 +1143,13 @@ fn run_tcp(ep: &Endpoint, reqs: &[ReqSpec], expect_ids: &[u64], expect_events: u
             if !read_delay.is_zero() { std::thread::sleep(read_delay); }
         }
         if seen_s2 { break; }
+        if written_at.is_none() && writer.is_finished() { written_at = Some(Instant::now()); }
+        // the watchdog runs from the moment the last request byte was written
+        let deadline = written_at.map(|t| t + WATCHDOG).unwrap_or(hard);
         if !sent_s1 && writer.is_finished() {
             let all = have_all(&out.frames, expect_ids);
+            // the grace period starts when the last request byte was written (slow chunked writes do not eat it)
+            let grace = *written_at.get_or_insert_with(Instant::now) + GRACE;
             if all || Instant::now() > grace {
                 if !all { out.problems.push("response-withheld-until-next-request".into()); }
                 if s.write_all(&sentinel(S1)).is_err() { out.problems.push("write-s1".into()); break; }
@@ -1217,7 +1222,7 @@ fn run_ws(sv: &Servers, ep: &Endpoint, reqs: &[ReqSpec], expect_ids: &[u64], exp
             true
         });
         let deadline = Instant::now() + WATCHDOG;
-        let grace = Instant::now() + GRACE;
+        let mut written_at: Option<Instant> = None;
         let mut sent_s1 = false;
         let (mut seen_s1, mut sent_s2) = (false, false);
         let mut s1_at: Option<Instant> = None;
@@ -1225,6 +1230,7 @@ fn run_ws(sv: &Servers, ep: &Endpoint, reqs: &[ReqSpec], expect_ids: &[u64], exp
         loop {
             if !sent_s1 && sent_all.load(std::sync::atomic::Ordering::SeqCst) {
                 let all = have_all(&out.frames, &expect_ids);
+                let grace = *written_at.get_or_insert_with(Instant::now) + GRACE;
                 if all || Instant::now() > grace {
                     if !all { out.problems.push("response-withheld-until-next-request".into()); }
                     if s2_tx.send(S1).await.is_err() { out.problems.push("send-s1".into()); break; }
@@ -1855,7 +1861,7 @@ fn shutdown_midflight(out: &mut Out, sv: &Servers, graceful: bool, n: usize, seq
         });
         a
     });
-    let body = format!("\"{}\"", "g".repeat(if graceful { 120_000 } else { 10 })).into_bytes();
+    let body = format!("\"{}\"", "g".repeat(if graceful { 700_000 } else { 10 })).into_bytes();
     let closures = c.clone();
     let got: Option<Vec<u64>> = sv.rt.block_on(async {
         let mut ws = ws_connect(addr).await?;
@@ -2111,7 +2117,7 @@ fn main() {
                     _ => {}
                 }
                 // byte-at-a-time writes of large bodies are slow without adding anything (thorough does some)
-                if params.chunk == 1 && bytes > if args.thorough() { 200_000 } else { 20_000 } { params.chunk = 49; }
+                if params.chunk == 1 && bytes > if args.thorough() { 60_000 } else { 20_000 } { params.chunk = 49; }
             }
             run_sequence(&mut out, &sv, &probe, s, &reqs, params);
             match s % 16 {
@@ -2123,7 +2129,7 @@ fn main() {
                 1 => { let m = rng.range(3, 6) as usize; offreader_backpressure(&mut out, &sv, *rng.pick(&["wsq", "wsp", "wsb", "wsn"]), m, if args.thorough() { *rng.pick(&[400u64, 900]) } else { 350 }, s); }
                 6 => { let long = rng.chance(1, 2); let k = rng.range(0, 5) as usize; let cut = *rng.pick(&[1usize, 8, 47, 48, 49, 53, 56]); stalled_sender(&mut out, &sv, *rng.pick(&["tcps", "atcps"]), k, cut, long, s); }
                 8 => tcp_inline_panic(&mut out, &sv, *rng.pick(&["tcp", "tcpn", "atcp", "atcpn", "tcpw", "atcpw"]), *rng.pick(&["str", "any"]), s),
-                14 => { let n = rng.range(2, 8) as usize; shutdown_midflight(&mut out, &sv, s % 32 == 14, n, s); }
+                14 => { let g = s % 32 == 14; let n = if g { rng.range(5, 9) } else { rng.range(2, 8) } as usize; shutdown_midflight(&mut out, &sv, g, n, s); }
                 _ => {}
             }
             if out.oracle_failures > fails0 && t0.elapsed() > Duration::from_secs(8) { slow_failures += 1; }
